@@ -1,7 +1,8 @@
 From CV Require Import Frame.Frame.
 From CV Require Import Frame.FramePacked.
+From CV Require Import Frame.FrameReaders.
 From Coq Require Import ExtrOcamlBasic.
 Extraction Language OCaml.
-Extraction "frame_model.ml" marshal_packed unmarshal_packed pdstep p_init pdecode1_gen encode_packed_stream marshal unmarshal unmarshal_alloc encode encode_packed decode1 decode1_gen dstep dstep_gen run_history
+Extraction "frame_model.ml" xdstep xread_full xread_full_drop marshal_packed unmarshal_packed pdstep p_init pdecode1_gen encode_packed_stream marshal unmarshal unmarshal_alloc encode encode_packed decode1 decode1_gen dstep dstep_gen run_history
   d_init packed_reader alloc_bytes alloc_table eff_max stream_header_size segment_size segment_size_nowrap total_size
   max_stream_segments len.
